@@ -77,6 +77,18 @@ def modelServe (r : Router) (p : String) : Router × String :=
     let k := (r.z.filter (fun e => pathMatch e.2 (filterPath (path.getD [])))).length
     (r, joinWith " || " (dedup ((orders r.z).map (fun o => fmtOutcome (r.serveCOAP o path)))) ++ s!" ## {k}")
 
+def decodeSegs (s : String) : Option (List Str) :=
+  if s = "none" then some [] else (s.splitOn ",").mapM decodeStr
+
+/-- `wire <transport> <code> <segments> <bytes>`: the transport and the bytes are the harness's business -/
+def modelWire (r : Router) (code segs : String) : Router × String :=
+  match code.toNat?, decodeSegs segs with
+  | some c, some sg =>
+    let path := wirePath (decodedSegs sg)
+    let k := (r.z.filter (fun e => pathMatch e.2 (filterPath (path.getD [])))).length
+    (r, joinWith " || " (dedup ((orders r.z).map (fun o => fmtOutcome (r.wireServe o c sg)))) ++ s!" ## {k}")
+  | _, _ => (r, "bad-op")
+
 def modelStep (r : Router) (line : String) : Router × String :=
   match words line with
   | ["reset"] => ({}, "ok")
@@ -105,6 +117,7 @@ def modelStep (r : Router) (line : String) : Router × String :=
   | ["defaultf", h] => (r.defaultHandle (some (if h = "nil" then .nilFunc else .named h)), "ok")
   | ["mw", m] => (r.use m, "ok")
   | ["served", p] => modelServe r p
+  | ["wire", _, code, segs, _] => modelWire r code segs
   | ["serve", p] => modelServe r p
   | ["match", p] =>
     match decodeStr p with
@@ -199,6 +212,13 @@ def judgeStep (st : SpecState) (line : String) : SpecState × String :=
     | ["defaultf", h] => ({ st with dflt := specH true h }, "ok")
     | ["mw", m] => ({ st with mws := st.mws ++ [m] }, "ok")
     | ["serve", p] => (st, judgeServeLine st p ow)
+    | ["wire", _, code, segs, _] =>
+      match code.toNat?, decodeSegs segs, parseSeen ow with
+      | some c, some sg, some seen =>
+        match judgeWire st c sg seen with
+        | none => (st, "ok")
+        | some cl => (st, "violates " ++ cl)
+      | _, _, _ => (st, "bad-obs")
     | ["served", p] => (st, judgeServeLine st p ow)
     | ["match", p] =>
       match decodeStr p, ow with
